@@ -640,6 +640,8 @@ def run_namer(cfg, seed):
 # Netlist level
 # ------------------------------------------------------------------------------------------------------------------
 HASHSEEDS = (("1", 0), ("4242", 100003))      # (PYTHONHASHSEED, heap padding objects) of the two fresh processes
+DUID_SWEEP = dict(quick=128, thorough=256)    # in-process rebuilds, the design's first DUID at every residue modulo this
+TIER = ["quick"]
 NETLIST_DUMMIES = (1, 2, 3, 5, 8, 13, 64)     # further fresh processes create this many dummy Signals before the design
 CHILD_TIMEOUT = 240
 
@@ -697,13 +699,13 @@ def parse_declarations(text):
     return decls
 
 
-def run_child(design, hashseed, pad, ndummy=0, times=1):
+def run_child(design, hashseed, pad, ndummy=0, times=1, sweep=0):
     env = dict(os.environ)
     env["PYTHONHASHSEED"] = hashseed
     env["PYTHONDONTWRITEBYTECODE"] = "1"
     verif = os.path.dirname(os.path.dirname(os.path.abspath(__file__)))
-    cmd = [sys.executable, "-c", "import fsmc; from checks import c02_designs as d; import sys; d.child_main(sys.argv[1:])", design, str(pad), str(ndummy), str(times)]
-    p = subprocess.run(cmd, cwd=verif, env=env, stdout=subprocess.PIPE, stderr=subprocess.PIPE, timeout=CHILD_TIMEOUT)
+    cmd = [sys.executable, "-c", "import fsmc; from checks import c02_designs as d; import sys; d.child_main(sys.argv[1:])", design, str(pad), str(ndummy), str(times), str(sweep)]
+    p = subprocess.run(cmd, cwd=verif, env=env, stdout=subprocess.PIPE, stderr=subprocess.PIPE, timeout=CHILD_TIMEOUT + 6 * sweep)
     if p.returncode != 0:
         raise C02MachineryError(f"child for {design!r} exited {p.returncode}: {p.stderr.decode()[-2000:]}")
     doc = json.loads(p.stdout.decode())
@@ -793,7 +795,8 @@ def aggregate(viol):
 def run_design(cfg, seed):
     name, design = cfg[0], cfg[2]
     order = HASHSEEDS[::-1] if seed % 2 else HASHSEEDS
-    docs = [run_child(design, hs, pad, 0, 2 if i == 0 else 1) for i, (hs, pad) in enumerate(order)]
+    sweep = DUID_SWEEP["thorough" if TIER[0] == "thorough" else "quick"]
+    docs = [run_child(design, hs, pad, 0, 2 if i == 0 else 1, sweep if i == 0 else 0) for i, (hs, pad) in enumerate(order)]
     viol, cover, sample = analyse_netlist(docs[0])
     viol_b, cover_b, _ = analyse_netlist(docs[1])
     # (4) reproducibility: text, data files and the sequence of handed-out names
@@ -834,6 +837,19 @@ def run_design(cfg, seed):
             viol.append(dict(rule="netlist.repro.duid_offset", msg=f"creating {nd} unrelated Signal(s) before the design is built changes the emitted "
                              f"Verilog, first difference at line {k + 1}: {la[k] if k < len(la) else '<eof>'!r} vs {lb[k] if k < len(lb) else '<eof>'!r}",
                              detail=dict(dummy_signals=nd, line=k + 1, plain_run=la[max(0, k - 2):k + 3], offset_run=lb[max(0, k - 2):k + 3])))
+    # (4c) DUID sweep inside the first process: the design rebuilt with its first DUID at every residue modulo `sweep`
+    sw = docs[0]["sweep"]
+    if sw["residues"] != sweep:
+        raise C02MachineryError(f"DUID sweep covered {sw['residues']} of {sweep} residues")
+    n_conv += sweep
+    for k, tx in sw["distinct"]:
+        tx = mask_dates(tx)
+        if tx != ta:
+            kk, la, lb = first_diff(tx)
+            viol.append(dict(rule="netlist.repro.duid_sweep", msg=f"rebuilding the design in the same process with its DUIDs moved to residue {k} modulo {sweep} "
+                             f"changes the emitted Verilog, first difference at line {kk + 1}: {la[kk] if kk < len(la) else '<eof>'!r} vs {lb[kk] if kk < len(lb) else '<eof>'!r}",
+                             detail=dict(residue=k, modulo=sweep, line=kk + 1, plain_run=la[max(0, kk - 2):kk + 3], sweep_run=lb[max(0, kk - 2):kk + 3])))
+    cover["duid_sweep_residues"] = sweep
     cover["conversions"] = n_conv
     cover["duid_offset_processes"] = len(NETLIST_DUMMIES)
     viol = aggregate(viol)
@@ -851,6 +867,7 @@ def run_design(cfg, seed):
 # Module API
 # ------------------------------------------------------------------------------------------------------------------
 def run_config(cfg, seed, tier):
+    TIER[0] = tier
     if cfg[1] == "design":
         return run_design(cfg, seed)
     return run_namer(cfg, seed)
